@@ -273,7 +273,9 @@ Definition env_step (l : label) (s : state) : option state :=
   match l with
   | LConnCall regs ping =>
       match cpc s with
-      | CIdle => obind (spend (S (length regs)) s) (fun s => Some (set_cpc (CStart regs ping) s))
+      | CIdle =>      (* registration lines (WEBIRC, PASS, CAP LS, NICK, USER) are never a QUIT *)
+          if existsb o_quit regs then None
+          else obind (spend (S (length regs)) s) (fun s => Some (set_cpc (CStart regs ping) s))
       | _ => None
       end
   | LCloseCall =>
